@@ -45,7 +45,10 @@ RULE = ("images: 1..6 disjoint segments x gaps (1..4096, 64 KiB-sized) x lengths
         "long runs) x address classes (0, <2^16, across 64 KiB boundaries, <2^24, across 2^24, >2^24, across 2^31, "
         "just below 2^32, ending at a page end) x data styles (random, 00, ff, format characters, checksum-boundary sums) "
         "x one CPU per (endianness, bytes per address, srec size, alignment) class of cpu_list plus the CPUs special-cased "
-        "by the ELF/Mach-O writers x entry point (none / inside / >0xffff) x exported symbols, for all 8 output types.  "
+        "by the ELF/Mach-O writers x entry point (none / inside / >0xffff) x exported symbols, for all 8 output types; ELF in addition: "
+        "every CPU of cpu_list (both byte orders for the special-cased and ELF64 ones), 1500 symbols (two symbol pools), names of "
+        "1..254 characters, the empty Memory; loaders: the written files plus field-aware ELF mutants, block-aware UF2 mutants, "
+        "text mutants of TI-TXT / HEX / S-record files.  "
         "A case is non-trivial when the image has >= 2 segments or crosses a 64 KiB boundary or lies above 2^16; "
         "distinct = distinct (format, cells, entry, cpu).")
 MODELLED = ("write_hex.cpp (write_hex, write_hex_line: 16-byte buffer, flush at 64 KiB boundaries, extended linear address records, "
@@ -561,9 +564,8 @@ def correspondence(ctx, corr):
         if a != b:
             corr["disagreements"].append({"line": l[:3000], "impl": a[:3000], "model": b[:3000]})
     corr["streams"]["rd"] = {"lines": len(rl), "by_format_and_status": rk}
-    # --- read_elf: the real files and field-aware mutants (header, section header table, symbol table, truncation).
-    # The model runs first: a file with a loaded section / symbol table above 1 MiB is outside the model (the real loops
-    # `for (i = 0; i < sh_size; i++)` then run for minutes or for ever: robustness is C17's subject) and is not fed to the code.
+    # --- read_elf: the real files and field-aware mutants (header, section header table, symbol table, truncation);
+    # elf_mut avoids the one thing outside the model: fseek() to offsets above 2^40 (file-system dependent)
     el = []
     for i in sel:
         fmt, img = cases[i]
@@ -577,8 +579,8 @@ def correspondence(ctx, corr):
             for m in elf_mut.mutants(rng, w["file"], 2):
                 el.append("rd elf elf %s" % nvlib.hexs(m))
     em = nvlib.run_lines(exe, el, env=dict(os.environ), timeout=600)
-    keep = [k for k, a in enumerate(em) if a != "skip-large"]
-    ei = nvlib.run_lines(ctx.harness, [el[k] for k in keep], timeout=120)
+    keep = list(range(len(el)))
+    ei = nvlib.run_lines(ctx.harness, el, timeout=120)
     ek = {}
     for k, a in zip(keep, ei):
         corr["cases"] += 1
@@ -586,7 +588,7 @@ def correspondence(ctx, corr):
         ek[st] = ek.get(st, 0) + 1
         if a != em[k]:
             corr["disagreements"].append({"line": el[k][:3000], "impl": a[:3000], "model": em[k][:3000]})
-    corr["streams"]["rd-elf"] = {"lines": len(el), "outside_model_large_section": len(el) - len(keep), "by_status": ek}
+    corr["streams"]["rd-elf"] = {"lines": len(el), "by_status": ek}
     rl = rl + [el[k] for k in keep]
     # --- read_uf2: the real files and block-aware mutants (flags, byte_count incl. 476/477, magics, address wrap, truncation)
     ul = []
